@@ -115,16 +115,53 @@ def lexable_number_start(s):
     return True
 
 
+def raw_prefix_like_ok(s):
+    """s looks like 0b.. / 0o.. / 0x..: will rustc lex it as ONE literal token (digits of that radix + suffix)?"""
+    kind, rest = s[1].lower(), s[2:]
+    allowed = {"b": "01", "o": "01234567", "x": "0123456789abcdefABCDEF"}[kind]
+    m = re.match(r"^[0-9a-fA-F_]*" if kind == "x" else r"^[0-9_]*", rest)
+    digits = m.group(0).replace("_", "")
+    if not digits or any(ch not in allowed for ch in digits) or rest.startswith("_"):
+        return False
+    suffix = rest[m.end():]
+    if kind != "x" and suffix[:1] in ("e", "E"):
+        return False
+    return re.fullmatch(r"[0-9A-Za-z_]*", suffix) is not None
+
+
 def int_token(R, v, base, allow_plain_suffix=True):
     """digits of v in `base` as token text for the `<digits> base N` form; returns (token_text)"""
-    s = underscores(R, rand_case(R, to_radix(v, base)))
+    digits = to_radix(v, base)
+    if allow_plain_suffix and R.random() < 0.2:
+        # leading zeros; when the next digit is b / o / x (bases above 11 / 24 / 33) the text LOOKS like a radix
+        # prefix, but under an explicit `base N` every character is a digit of base N
+        digits = "0" * R.randrange(1, 3) + digits
+    s = underscores(R, rand_case(R, digits))
     if re.fullmatch(r"[0-9_]+", s):
         return s
+    if allow_plain_suffix and len(s) >= 3 and s[0] == "0" and s[1] in "bBoOxX":
+        return s if raw_prefix_like_ok(s) else "_" + s
     if s[0].isalpha():
         return s if R.random() < 0.8 else "_" + s
     if allow_plain_suffix and lexable_number_start(s) and "e" not in s.lower() and R.random() < 0.5:
         return s
     return "_" + s
+
+
+def prefix_like(R):
+    """(token text, base, value): a digit string of an explicit base whose first characters are 0b / 0o / 0x"""
+    while True:
+        kind, lo, dig = R.choice([("b", 12, "01"), ("o", 25, "01234567"), ("x", 34, "0123456789abcdef")])
+        base = R.randrange(lo, 37)
+        body = "".join(R.choice(dig) for _ in range(R.randrange(1, 12)))
+        tail = "".join(R.choice("ghijklmnopqrstuvwxyz"[: max(0, base - 16)] or "0") for _ in range(R.randrange(0, 3)))
+        if tail and not tail[0].isalpha():
+            tail = ""
+        if kind != "x" and tail[:1] in ("e", "E"):
+            tail = ""
+        text = "0" + rand_case(R, kind) + body + tail
+        if raw_prefix_like_ok(text):
+            return text, base, int(text, base)
 
 
 def prefixed(R, v):
@@ -152,6 +189,8 @@ def gen_int(R, idx):
     else:
         base = R.randrange(2, 37)
         body = int_token(R, v, base)
+        if R.random() < 0.12:
+            body, base, v = prefix_like(R)
     tokens = sign + body + (" base %d" % base if base else "")
     macro = ("static_" if static else "") + ("ibig" if signed else "ubig")
     val = -v if neg else v
@@ -328,6 +367,13 @@ def gen_ratio(R, idx):
     else:
         base = R.randrange(2, 37)
         nb, dbody = int_token(R, n, base), int_token(R, d, base)
+        if R.random() < 0.15:
+            if has_den and R.random() < 0.5:
+                dbody, base, d = prefix_like(R)
+                nb = int_token(R, n, base)
+            else:
+                nb, base, n = prefix_like(R)
+                dbody = int_token(R, d, base)
     body = ns + nb + ("/" + ds + dbody if has_den else "")
     tokens = ("~" if relaxed else "") + body + (" base %d" % base if base else "")
     sn = -n if (nneg != dneg) else n
@@ -880,7 +926,7 @@ ev = {
     "coverage": {
         "evaluations": sum(v.get("invocations", 0) for v in cov.values()),
         "distinct_nontrivial": distinct,
-        "rule": "seeded generator over the documented literal grammar (prefixes, `base N`, signs, underscores, letter case, binary / hex-float / decimal floats with exponents, fractions, ~), magnitudes on both sides of the u32 const path, the double word and multi-word static word arrays; each invocation is compiled against the working tree and its value compared with the generator's own arithmetic and with the run-time parser; distinct_nontrivial = distinct (macro, token text) pairs whose value is not 0 or 1",
+        "rule": "seeded generator over the documented literal grammar (prefixes, `base N` incl. leading zeros and digit strings that look like a radix prefix (`0b1 base 16`), signs, underscores, letter case, binary / hex-float / decimal floats with exponents, fractions, ~), magnitudes on both sides of the u32 const path, the double word and multi-word static word arrays; each invocation is compiled against the working tree and its value compared with the generator's own arithmetic and with the run-time parser; distinct_nontrivial = distinct (macro, token text) pairs whose value is not 0 or 1",
         "samples": [short(c) for c in cases[:12]] + [{"macro": c["macro"], "tokens": c["tokens"], "outside_grammar": c["why"]} for c in rej[:6]],
         "generated_programs": cov,
         "accept_cases_by_macro": stats["by_macro"],
